@@ -259,9 +259,11 @@ func runC02In(w *c02World, c c02Case, shared *[]byte) (*ev.Violation, bool, bool
 func drawC02(t *rapid.T) c02Case {
 	n := rapid.IntRange(4, 10).Draw(t, "n")
 	ws := make([]uint64, n)
-	wclass := rapid.IntRange(0, 3).Draw(t, "wclass")
+	wclass := rapid.IntRange(0, 12).Draw(t, "wclass") % 5
 	for i := range ws {
 		switch wclass {
+		case 4: // a committee without any weight: nothing is a quorum of it, not even the signatures of all its members
+			ws[i] = 0
 		case 0:
 			ws[i] = 1
 		case 1:
